@@ -4,6 +4,7 @@ import (
 	"errors"
 	"fmt"
 	"reflect"
+	"runtime"
 	"strings"
 	"sync"
 	"time"
@@ -206,4 +207,155 @@ func cronLoggerPhase(rp roundPlan) {
 	}
 	checkIntact(fmt.Sprintf("concurrent: after %d independent loggers logged it at once,", nLog))
 	restore()
+}
+
+// ------------------------------------------------- back-ends that keep the record
+
+// record is what a Printf back-end is given.
+type record struct {
+	format string
+	args   []interface{} // the variadic slice as given, not copied
+}
+
+// backend is a Printf back-end of one of three kinds:
+//
+//	immediate: formats inside Printf;
+//	retaining: keeps (format, args) and formats when asked for its lines;
+//	asynchronous: hands (format, args) to a goroutine of its own over a channel,
+//	  which yields and then formats.
+//
+// Nothing in Printf(string, ...interface{}) forbids keeping the slice: every
+// call gets its own.
+type backend struct {
+	kind  string
+	lines []string
+	recs  []record
+	ch    chan record
+	done  chan struct{}
+}
+
+func newBackend(kind string) *backend {
+	b := &backend{kind: kind}
+	if kind == "asynchronous" {
+		b.ch, b.done = make(chan record, 4096), make(chan struct{})
+		go func() {
+			defer close(b.done)
+			for r := range b.ch {
+				runtime.Gosched()
+				b.lines = append(b.lines, fmt.Sprintf(r.format, r.args...))
+			}
+		}()
+	}
+	return b
+}
+
+func (b *backend) Printf(format string, args ...interface{}) {
+	switch b.kind {
+	case "immediate":
+		b.lines = append(b.lines, fmt.Sprintf(format, args...))
+	case "retaining":
+		b.recs = append(b.recs, record{format, args})
+	default:
+		b.ch <- record{format, args}
+	}
+}
+
+// finish returns the back-end's lines; called by the goroutine that owns the
+// logger after its last message (asynchronous: after the queue has drained).
+func (b *backend) finish() []string {
+	switch b.kind {
+	case "retaining":
+		for _, r := range b.recs {
+			b.lines = append(b.lines, fmt.Sprintf(r.format, r.args...))
+		}
+		b.recs = nil
+	case "asynchronous":
+		close(b.ch)
+		<-b.done
+	}
+	return b.lines
+}
+
+// series logs logger i's own messages with its own values.
+func logSeries(l cron.Logger, i, n int, when time.Time) {
+	for m := 0; m < n; m++ {
+		l.Info(fmt.Sprintf("logger %d info %d", i, m), "owner", i, "seq", m, "at", when.Add(time.Duration(i*1000+m)*time.Second))
+		l.Error(fmt.Errorf("logger %d failure %d", i, m), fmt.Sprintf("logger %d error %d", i, m), "owner", i, "at", when.Add(time.Duration(i*1000+m)*time.Minute), "code", i*100+m)
+	}
+}
+
+// cronBackendPhase: independent cron loggers over back-ends that keep what
+// they are given. A record one back-end holds must not change because the
+// same or another cron logger logs something later.
+func cronBackendPhase(rp roundPlan) {
+	rng := mon.NewRNG("cronbackends", rp.idx)
+	viol := func(kind, msg string, extra map[string]any) {
+		sig := "cron/logger-record-retained-by-backend-changed-after-later-logging/" + kind + "-backend"
+		if kind == "immediate" {
+			sig = "cron/logger-lines-differ-under-concurrency/own-args"
+		}
+		extra["round"], extra["build"] = rp.String(), build
+		rec.Violation(rp.idx, sig, msg, extra)
+	}
+	kinds := []string{"retaining", "asynchronous", "immediate"}
+	nLog, nMsg := rng.Range(6, 9), rng.Range(3, 6)
+	when := time.Date(2021+rng.Intn(5), time.Month(1+rng.Intn(12)), 1+rng.Intn(28), rng.Intn(24), rng.Intn(60), 0, 0, time.UTC)
+	mk := func(i int, b *backend) cron.Logger {
+		if i%3 == 2 {
+			return cron.PrintfLogger(b) // errors only
+		}
+		return cron.VerbosePrintfLogger(b)
+	}
+
+	// solo: every logger alone over an immediate back-end
+	solo := make([][]string, nLog)
+	for i := range solo {
+		b := newBackend("immediate")
+		logSeries(mk(i, b), i, nMsg, when)
+		solo[i] = b.finish()
+	}
+
+	// sequential: A logs into a keeping back-end, B logs its own messages, then A's records are formatted
+	for _, kind := range []string{"retaining", "asynchronous"} {
+		a, bIdx := rng.Intn(nLog), rng.Intn(nLog)
+		ba, bb := newBackend(kind), newBackend(kinds[rng.Intn(3)])
+		logSeries(mk(a, ba), a, nMsg, when)
+		logSeries(mk(bIdx, bb), bIdx, nMsg, when)
+		got := ba.finish()
+		bb.finish()
+		rec.Count("cronlog.backends.sequential_checks", 1)
+		rec.Count(build+".cronlog.backends.sequential_checks", 1)
+		if !reflect.DeepEqual(got, solo[a]) {
+			viol(kind, fmt.Sprintf("sequential: logger %d logged %d messages into a %s back-end, then logger %d logged its own; the first back-end's records now read %q, alone the lines are %q", a, nMsg, kind, bIdx, got, solo[a]),
+				map[string]any{"first_logger": a, "second_logger": bIdx})
+		}
+	}
+
+	// concurrent: everybody at once, back-end kinds in turn
+	var wg sync.WaitGroup
+	start := make(chan struct{})
+	got := make([][]string, nLog)
+	for i := 0; i < nLog; i++ {
+		wg.Add(1)
+		go func(i int) {
+			defer wg.Done()
+			b := newBackend(kinds[(i+rp.idx)%3])
+			l := mk(i, b)
+			<-start
+			logSeries(l, i, nMsg, when)
+			got[i] = b.finish()
+		}(i)
+	}
+	close(start)
+	wg.Wait()
+	rec.Progress()
+	for i := 0; i < nLog; i++ {
+		kind := kinds[(i+rp.idx)%3]
+		rec.Count("cronlog.backends.concurrent_checks."+kind, 1)
+		rec.Count(build+".cronlog.backends.concurrent_checks", 1)
+		if !reflect.DeepEqual(got[i], solo[i]) {
+			viol(kind, fmt.Sprintf("concurrent: logger %d over a %s back-end, logging at the same time as %d other cron loggers, ended with the lines %q; alone the lines are %q", i, kind, nLog-1, got[i], solo[i]),
+				map[string]any{"logger": i})
+		}
+	}
 }
